@@ -8,9 +8,26 @@ import math
 
 import numpy as np
 
-from vlib.coqfmt import cfloat, cnat, cbool, clist
+from vlib.coqfmt import cnat, cbool, clist
+
+
+def cfloat(x):
+    """exact binary64 literal as integers (model/DiscreteFloat.v [fl] / [nfl]): parses much faster
+    than a hexadecimal float literal"""
+    x = float(x)
+    if math.isnan(x):
+        return "nan"
+    if math.isinf(x):
+        return "infinity" if x > 0 else "neg_infinity"
+    if x == 0.0:
+        return "(-0)%float" if math.copysign(1.0, x) < 0 else "0%float"
+    m, e = math.frexp(abs(x))
+    M = int(m * 9007199254740992.0)   # 2^53, exact
+    assert math.ldexp(M, e - 53) == abs(x)
+    return "(%s %d%%uint63 %d%%uint63)" % ("nfl" if x < 0 else "fl", M, e - 53 + 2101)
 
 LIN, LOG = "linear", "logarithmic"
+PRELUDE = "From Coq Require Import Uint63.\n"     # for the integer-encoded float literals
 
 
 # ------------------------------------------------------------------ tree shapes
@@ -605,6 +622,60 @@ def io_correspondence(ctx, cases, results, requires, chunk=60, rtol=1e-9, label=
             text += coq_common(c, name) + coq_io_term(c, name, r)
         # one Eval per case: the result types differ in nothing, but separate Evals keep terms small
         text += "Eval vm_compute in [%s].\n" % "; ".join("r_c%d" % k for k, _c, _r in part)
-        parsed = ctx.coq_eval(text, requires=requires, tag="io")[0]
+        parsed = ctx.coq_eval(PRELUDE + text, requires=requires, tag="io")[0]
         for (k, c, r), pr in zip(part, parsed):
             compare_io(ctx, c, r, pr, rtol=rtol, label=label)
+
+
+# ------------------------------------------------------------------ brute force (C10)
+def brute_force(case):
+    """exact marginal posteriors and normalising constant of the discretised model on a
+    single tree, by enumeration of every assignment of grid indices to the non-sample nodes:
+    weight = prod prior[u][a_u] * prod_edges Poisson(mutations; (t[a_parent] - t[a_child] + eps) mu span),
+    parents no younger than children, samples at timepoint index 0 (time 0).
+    Independent of tsdate: uses only scipy's pmf, in linear space, with exact (fsum) sums."""
+    import scipy.stats
+    d = case["ts"]
+    tp = case["grid"]
+    G = len(tp)
+    fixed = [bool(f) for f in d["nodes_flags"]]
+    ns = [u for u in range(len(fixed)) if not fixed[u]]
+    counts = edge_mutation_counts(d)
+    edges = [(p, c, m, r - l) for (l, r, p, c), m in zip(d["edges"], counts)]
+    # pmf lookup per edge: pm[k][i][j]
+    pm = []
+    for p, c, m, span in edges:
+        tab = [[float(scipy.stats.poisson.pmf(m, (tp[i] - tp[j] + case["eps"]) * case["mu"] * span))
+                if j <= i else 0.0 for j in range(G)] for i in range(G)]
+        pm.append(tab)
+    prior = {u: case["prior"][str(u)] for u in ns}
+    pos = {u: k for k, u in enumerate(ns)}
+    terms = {u: [[] for _ in range(G)] for u in ns}
+    allw = []
+    for a in itertools.product(range(G), repeat=len(ns)):
+        w = 1.0
+        for u in ns:
+            w *= prior[u][a[pos[u]]]
+            if w == 0.0:
+                break
+        if w == 0.0:
+            continue
+        for k, (p, c, m, span) in enumerate(edges):
+            ip = a[pos[p]]
+            ic = 0 if fixed[c] else a[pos[c]]
+            if ic > ip:
+                w = 0.0
+                break
+            w *= pm[k][ip][ic]
+        if w == 0.0:
+            continue
+        allw.append(w)
+        for u in ns:
+            terms[u][a[pos[u]]].append(w)
+    Z = math.fsum(allw)
+    post = {u: [math.fsum(terms[u][i]) / Z for i in range(G)] for u in ns}
+    return post, Z
+
+
+def is_single_tree(d):
+    return all(l == 0.0 and r == d["L"] for l, r, _p, _c in d["edges"])
